@@ -1,5 +1,10 @@
 import FormulaicVerif.Engines.Json
 import FormulaicVerif.Model.Calculus
+import FormulaicVerif.Model.CalcEntry
+import FormulaicVerif.Model.CalcMat
+/-! Engine of the `c20` correspondence stream. Only decoding/encoding lives here; every observable
+is computed by `Model.Calc` (entry points, orderings, edit histories), `Model.differentiateFormula`
+(the legacy request) and `Model.CalcMat.materialize` (the C02 pipeline on a numeric cache). -/
 namespace FormulaicVerif.Engines.C20
 open Lean FormulaicVerif.Model FormulaicVerif.Engines
 
@@ -7,29 +12,170 @@ def evalOf : String → EvalMethod
   | "literal" => .literal
   | "python" => .python
   | _ => .lookup
-def evalStr : EvalMethod → String
-  | .literal => "literal" | .python => "python" | .lookup => "lookup"
 
 def factorOf (j : Json) : Factor := ⟨jstr j "x", evalOf (jstr j "m")⟩
-def factorJ (f : Factor) : Json := Json.mkObj [("x", Json.str f.expr), ("m", Json.str (evalStr f.eval))]
+def factorJ (f : Factor) : Json :=
+  Json.mkObj [("x", Json.str f.expr), ("m", Json.str (Calc.evalName f.eval))]
 def termOf (j : Json) : Model.Term := (asArr j).map factorOf
 def termJ (t : Model.Term) : Json := jlist (t.map factorJ)
+def termsJ (ts : List Model.Term) : Json := jlist (ts.map termJ)
+def optTermOf (j : Json) : Option Model.Term :=
+  match j with
+  | .arr _ => some (termOf j)
+  | _ => none
+
+def orderingOf (s : String) : SFm.Ordering :=
+  if s == "degree" then .degree else if s == "sort" then .sort else .none
+
+/-! ### the legacy request (corpus cases recorded before the entry points were modelled) -/
 
 def diffJ (f : List Model.Term) (wrt : List String) : Json :=
   match differentiateFormula f wrt with
   | .error _ => jerr "RuntimeError"
-  | .ok ts => jlist (ts.map termJ)
+  | .ok ts => termsJ ts
 
-/-- request: {"terms": [[{x,m}...]...], "wrt": [..], optional "terms2": …} → differentiated term list(s).
-`terms2` is the term list of the same formula object after in-place edits (the model is a pure
-function, so a second call is just another application) -/
-def handle (j : Json) : Json :=
+def handleLegacy (j : Json) : Json :=
   let f := (jarr j "terms").map termOf
   match differentiateFormula f (strs j "wrt") with
   | .error _ => jerr "RuntimeError"
   | .ok ts =>
     match jval j "terms2" with
-    | .arr a => Json.mkObj [("terms", jlist (ts.map termJ)), ("terms2", diffJ (a.toList.map termOf) (strs j "wrt"))]
-    | _ => Json.mkObj [("terms", jlist (ts.map termJ))]
+    | .arr a => Json.mkObj [("terms", termsJ ts), ("terms2", diffJ (a.toList.map termOf) (strs j "wrt"))]
+    | _ => Json.mkObj [("terms", termsJ ts)]
+
+/-! ### trees -/
+
+partial def valOf {α : Type} (leaf : Json → α) (j : Json) : St.Val α :=
+  match j.getObjVal? "l" with
+  | .ok l => .leaf (leaf l)
+  | .error _ =>
+    match j.getObjVal? "t" with
+    | .ok (.arr a) => .tup (a.toList.map (valOf leaf))
+    | _ => .node ((jarr j "n").map (fun kv =>
+        match kv with
+        | .arr #[.str k, v] => (k, valOf leaf v)
+        | _ => ("?", .node [])))
+
+partial def valJ {α : Type} (leaf : α → Json) : St.Val α → Json
+  | .leaf a => Json.mkObj [("l", leaf a)]
+  | .tup vs => Json.mkObj [("t", jlist (vs.map (valJ leaf)))]
+  | .node kvs => Json.mkObj [("n", jlist (kvs.map (fun kv => jlist [Json.str kv.1, valJ leaf kv.2])))]
+
+/-- a leaf as sent: the `_ordering` argument (`null`: the constructor's default, read off the live
+package) and the term list handed to the constructor (BEFORE `_reorder`) -/
+def specOf (j : Json) : Calc.Spec :=
+  let o := match jval j "o" with
+    | .str s => orderingOf s
+    | _ => orderingOf Gen.Calculus.defaultOrdering
+  ⟨Calc.Simple.new o ((jarr j "terms").map termOf), jbool j "st"⟩
+
+def simpleJ (f : Calc.Simple) : Json :=
+  Json.mkObj [("o", Json.str (Calc.orderingName f.ordering)), ("terms", termsJ f.terms)]
+
+def specJ (s : Calc.Spec) : Json :=
+  Json.mkObj [("o", Json.str (Calc.orderingName s.formula.ordering)), ("terms", termsJ s.formula.terms),
+    ("st", Json.bool s.hasStructure)]
+
+/-! ### sequence operations (same wire format as the `c19` stream) -/
+
+def sfOpOf (j : Json) : SFm.Op :=
+  match jstr j "o" with
+  | "insert" => .insert (jint j "i") (optTermOf (jval j "t"))
+  | "set" => .set (jint j "i") (optTermOf (jval j "t"))
+  | "del" => .del (jint j "i")
+  | "delslice" => .delSlice (jint j "a") (jint j "b")
+  | "append" => .append (optTermOf (jval j "t"))
+  | "extend" => .extend ((jarr j "ts").map optTermOf)
+  | "pop" => .pop (jint j "i")
+  | _ => .reverse
+
+/-! ### numeric materialisation -/
+
+def ratOfString (s : String) : Rat :=
+  match s.splitOn "/" with
+  | [p] => (p.toInt?.getD 0 : Int)
+  | [p, q] => mkRat (p.toInt?.getD 0) (q.toNat?.getD 1)
+  | _ => 0
+
+def ratStr (r : Rat) : String :=
+  if r.den = 1 then toString r.num else toString r.num ++ "/" ++ toString r.den
+
+def envOf (j : Json) : CalcMat.Env :=
+  (asArr j).map (fun p =>
+    match p with
+    | .arr #[.str e, .str v] => (e, CalcMat.NumVal.const (ratOfString v))
+    | .arr #[.str e, .arr c] => (e, CalcMat.NumVal.col (c.toList.map (fun x => ratOfString (asStr x))))
+    | _ => ("?", CalcMat.NumVal.const 0))
+
+def scopeErrName : ScopeErr → String
+  | .py e => e.name
+  | .fuel => "MODEL-OUT-OF-FUEL"
+
+/-- per term: the list of its columns (name, values) -/
+def matJ (env : CalcMat.Env) (efr : Bool) (nrows : Nat) (f : Calc.Simple) : Json :=
+  match CalcMat.materialize env f.terms efr nrows with
+  | .error e => jerr (scopeErrName e)
+  | .ok rs => jlist (rs.map (fun r => jlist (r.cols.map (fun e =>
+      Json.mkObj [("name", Json.str e.name), ("values", jstrs (e.col.map ratStr))]))))
+
+/-! ### the request -/
+
+def exJ {α : Type} (leaf : α → Json) : Except Calc.Err (St.Val α) → Json
+  | .ok v => valJ leaf v
+  | .error e => jerr e.className
+
+/-- request `{"op": "diff", "tree": …, "wrt": […], "sympy": use_sympy, "ops": […], "dops": […],
+"mat": {"env", "efr", "nrows"}}`:
+* `init`: every leaf after the constructor's `_reorder`;
+* `d`: `differentiate(*wrt)` of the formula / spec(s) (or the exception class);
+* `terms2`, `d2` (root leaf only): the object after the edit history `ops`, and its derivative;
+* `terms3`, `d3` (root leaf only, with `"slice": [a, b]`): the slice `f[a:b]` of the edited object and its derivative;
+* `dd` (root leaf only): the DERIVATIVE object after the edit history `dops`;
+* `mat` / `mat0`: the columns, term by term, of every leaf of the derivative / of the original. -/
+def handleDiff (j : Json) : Json :=
+  let sympy := Gen.Calculus.sympyImportable
+  let useSympy := jbool j "sympy"
+  let wrt := strs j "wrt"
+  let tree : St.Val Calc.Spec := valOf specOf (jval j "tree")
+  let d := Calc.differentiateSpecs sympy useSympy tree wrt
+  let base : List (String × Json) := [("init", valJ specJ tree), ("d", exJ specJ d)]
+  let hist : List (String × Json) :=
+    match tree with
+    | .leaf s =>
+      let ops := (jarr j "ops").map sfOpOf
+      let f2 := s.formula.edit ops
+      let d2 := f2.differentiate sympy useSympy wrt
+      let dd : Json :=
+        match s.formula.differentiate sympy useSympy wrt with
+        | .error e => jerr e.className
+        | .ok df => simpleJ (df.edit ((jarr j "dops").map sfOpOf))
+      let sl : List (String × Json) :=
+        match jval j "slice" with
+        | .arr #[a, b] =>
+          let f3 := f2.slice (asInt a) (asInt b)
+          [("terms3", termsJ f3.terms),
+           ("d3", match f3.differentiate sympy useSympy wrt with
+             | .ok r => simpleJ r | .error e => jerr e.className)]
+        | _ => []
+      [("terms2", termsJ f2.terms),
+       ("d2", match d2 with | .ok r => simpleJ r | .error e => jerr e.className),
+       ("dd", dd)] ++ sl
+    | _ => []
+  let mat : List (String × Json) :=
+    match jval j "mat" with
+    | .null => []
+    | m =>
+      let env := envOf (jval m "env")
+      let efr := jbool m "efr"
+      let n := jnat m "nrows"
+      let leafMat (s : Calc.Spec) : Json := matJ env efr n s.formula
+      [("mat0", valJ leafMat tree),
+       ("mat", match d with | .ok v => valJ leafMat v | .error e => jerr e.className)]
+  Json.mkObj (base ++ hist ++ mat)
+
+def handle (j : Json) : Json :=
+  match jstr j "op" with
+  | "diff" => handleDiff j
+  | _ => handleLegacy j
 
 end FormulaicVerif.Engines.C20
